@@ -12,9 +12,11 @@ import GridVerif.Gen.RTransform
     C03.admissible <Class> <trim 0|1> <n> p₁ … pₙ                   constructor guards
     C03.convinf array|scalar <x>                                     `_convert_inf` with the default replacement
     C03.convinf2 array|scalar <x> <replace_inf>
+    C03.static <Class> <method> <n> p₁ … pₙ <m> a₁ … aₘ              static helper (`find_parameter`): scalar arguments, array
+    C03.domain <inv 0|1> <Class> <trim 0|1> <n> p₁ … pₙ              `tf.domain` and `tf.codomain` (4 floats; `inv`: of InverseRTransform(tf))
 
   `size` is the number of elements of the array argument (only `HyperbolicRTransform` looks at it).
-  Answers: `ok <float>` | `ok 0|1` | `value-error` | `zero-division-error`.
+  Answers: `ok <float>` | `ok 0|1` | `value-error` | `zero-division-error` | `index-error`.
 -/
 namespace GridVerif.Driver.C03
 open GridVerif.Proto GridVerif.Gen.RTransform
@@ -34,6 +36,12 @@ def classRaise (cls meth : String) (ps : List Float) (trim : Bool) (size x : Flo
   | none => none
 
 def answer (v : Option Float) : Option String := v.map fun y => "ok " ++ sFloat y
+
+/-- An end of an interval as a float (`±inf` for the infinite ends). -/
+def extFloat : ExtVal Float → Float
+  | .fin x => x
+  | .posInf => 1.0 / 0.0
+  | .negInf => -1.0 / 0.0
 
 def handle : List String → Option String
   | "C03.eval" :: cls :: meth :: trim :: size :: rest => do
@@ -78,6 +86,25 @@ def handle : List String → Option String
     if tl ≠ [] then none else
     let b ← admissibleOf cls ps trim
     pure (if b then "ok 1" else "ok 0")
+  | "C03.static" :: cls :: meth :: rest => do
+    let (ps, tl) ← pVec pFloat rest
+    let (arr, tl) ← pVec pFloat tl
+    if tl ≠ [] then none else
+    let v ← staticOf cls meth arr ps
+    if staticRaisesOf cls meth arr ps == some true then staticRaisesKindOf cls meth
+    else match v with
+      | some y => pure ("ok " ++ sFloat y)
+      | none => pure "index-error"
+  | "C03.domain" :: inv :: cls :: trim :: rest => do
+    let inv ← pBool inv
+    let trim ← pBool trim
+    let (ps, tl) ← pVec pFloat rest
+    if tl ≠ [] then none else
+    let d ← domainOf cls ps trim
+    let c ← codomainOf cls ps trim
+    let (d, c) := if inv then (InverseRTransform.domainExt d c, InverseRTransform.codomainExt d c) else (d, c)
+    pure ("ok " ++ sFloat (extFloat d.1) ++ " " ++ sFloat (extFloat d.2) ++ " " ++ sFloat (extFloat c.1) ++ " "
+      ++ sFloat (extFloat c.2))
   | ["C03.convinf", "array", x] => do
     let x ← pFloat x
     pure ("ok " ++ sFloat (BaseTransform.convert_inf x))
